@@ -21,27 +21,65 @@ func init() {
 		v := root.constByName("RoomVersionPseudoIDs")
 		fmt.Fprintf(&b, "Definition gen_c06_pseudoid_version : list N := %s.\n\n", coqBytes(v.s))
 
-		// gjson path read by extractAuthorisedViaServerName
+		// extractAuthorisedViaServerName: json.Unmarshal(content, &c) into a local struct with exactly
+		// one field, tagged with the member name; any other shape (gjson, several fields, no tag) fails
 		ex := root.funcDecl("extractAuthorisedViaServerName")
 		if ex == nil {
 			fail("extractAuthorisedViaServerName not found")
 		}
-		key, nkeys := "", 0
+		key, ftype, fname, nstructs, nunmarshal, ngjson := "", "", "", 0, 0, 0
 		ast.Inspect(ex.Body, func(n ast.Node) bool {
-			if c, ok := n.(*ast.CallExpr); ok {
-				if sel, ok := c.Fun.(*ast.SelectorExpr); ok && sel.Sel.Name == "GetBytes" && len(c.Args) == 2 {
-					if lit, ok := c.Args[1].(*ast.BasicLit); ok && lit.Kind == token.STRING {
-						key, _ = strconv.Unquote(lit.Value)
-						nkeys++
+			switch x := n.(type) {
+			case *ast.StructType:
+				nstructs++
+				if x.Fields == nil || len(x.Fields.List) != 1 || len(x.Fields.List[0].Names) != 1 || x.Fields.List[0].Tag == nil {
+					fail("extractAuthorisedViaServerName: expected a struct with exactly one tagged field")
+				}
+				f := x.Fields.List[0]
+				tag, err := strconv.Unquote(f.Tag.Value)
+				if err != nil {
+					fail("extractAuthorisedViaServerName: struct tag %s", f.Tag.Value)
+				}
+				const pre = `json:"`
+				if !strings.HasPrefix(tag, pre) || !strings.HasSuffix(tag, `"`) {
+					fail("extractAuthorisedViaServerName: unexpected struct tag %s", tag)
+				}
+				key = tag[len(pre) : len(tag)-1]
+				if strings.Contains(key, ",") {
+					fail("extractAuthorisedViaServerName: tag options are not modelled: %s", tag)
+				}
+				ftype = c06Expr(f.Type)
+				fname = f.Names[0].Name
+			case *ast.CallExpr:
+				if sel, ok := x.Fun.(*ast.SelectorExpr); ok {
+					if id, ok := sel.X.(*ast.Ident); ok && id.Name == "gjson" {
+						ngjson++
+					}
+					if id, ok := sel.X.(*ast.Ident); ok && id.Name == "json" && sel.Sel.Name == "Unmarshal" {
+						nunmarshal++
+						if len(x.Args) != 2 || c06Expr(x.Args[0]) != "content" {
+							fail("extractAuthorisedViaServerName: json.Unmarshal is not applied to content")
+						}
 					}
 				}
 			}
 			return true
 		})
-		if nkeys != 1 {
-			fail("extractAuthorisedViaServerName: expected exactly one gjson.GetBytes(content, <literal>)")
+		if nstructs != 1 || nunmarshal != 1 || ngjson != 0 {
+			fail("extractAuthorisedViaServerName: expected exactly one local struct decoded by one json.Unmarshal(content, ...) and no gjson call (structs=%d unmarshal=%d gjson=%d)", nstructs, nunmarshal, ngjson)
 		}
-		fmt.Fprintf(&b, "Definition gen_c06_authorised_via_key : list N := %s.\n\n", coqBytes(key))
+		fmt.Fprintf(&b, "Definition gen_c06_authorised_via_key : list N := %s.\n", coqBytes(key))
+		fmt.Fprintf(&b, "(* Go type and name of the field the member is decoded into *)\nDefinition gen_c06_authorised_via_type : list N := %s.\nDefinition gen_c06_authorised_via_field : list N := %s.\n\n", coqBytes(ftype), coqBytes(fname))
+		// every condition of an if statement of the function, in source order (the guard on the
+		// decoded value is one of them)
+		var conds []string
+		ast.Inspect(ex.Body, func(n ast.Node) bool {
+			if is, ok := n.(*ast.IfStmt); ok {
+				conds = append(conds, c06Expr(is.Cond))
+			}
+			return true
+		})
+		fmt.Fprintf(&b, "Definition gen_c06_authorised_via_conditions : list (list N) := %s.\n\n", coqBytesList(conds))
 
 		// SplitID calls: (function, sigil, argument) in source order
 		b.WriteString("Definition gen_c06_splitid_calls : list (list N * N * list N) :=\n  [")
